@@ -1,4 +1,5 @@
-// extract/c05: regenerates lean/Generated/C05Pairs.lean from node/*.go, runtime/*.go, data/*.go —
+// extract/c05: regenerates lean/Generated/C05Pairs.lean (this file) and lean/Generated/C05TryShape.lean (tryshape.go).
+// C05Pairs comes from node/*.go, runtime/*.go, data/*.go —
 // the paired enter/leave operations on the call path. Model.Exc has no state that survives a statement
 // (C05_iteration_independence); the interpreter has: counters, stacks and locks that a Go function raises on the
 // way in and must lower again on EVERY way out — normal return, a control handed to the caller (return / break /
@@ -589,4 +590,11 @@ func main() {
 		os.Exit(1)
 	}
 	fmt.Printf("C05Pairs: %d sites, %d forwarders, %d counter operations, shapeChanged=%d\n", len(sites), len(forwarders), len(defs), len(shape))
+	// second part (tryshape.go): how the clause list of a try statement is built and scanned
+	summary, err := genTryShape(a)
+	if err != nil {
+		fmt.Fprintln(os.Stderr, err)
+		os.Exit(1)
+	}
+	fmt.Println(summary)
 }
